@@ -1,4 +1,5 @@
 """C05 Reference counts / GC — structural clause: edge linearity (E-LIN)."""
+import eswap
 import ewho
 import witness
 import ecanon
@@ -79,5 +80,12 @@ def run(ctx):
                 "reference being released).")
     nr = elin.check_rc_thresholds(ctx, F)
     ctx.floor("E-LIN.rcconst", "reference-count comparisons inventoried", nr, 11)
+    ctx.explain("E-TABLE.swap: the per-node body of level_swap is interpreted on a model store (BDD, BCDD with all tag "
+                "combinations, ZBDD): a node without a child on the lower level moves down unchanged; otherwise it keeps its "
+                "identity, is relabelled and re-inserted at the new upper level with children rebuilt from the grand-cofactors "
+                "through the kind's own reduce, denoting the same function of (a, b, sub-functions) under the new order; an "
+                "equal node of the old upper level is reused; dead old children are removed exactly once.")
+    nsw = eswap.run(ctx, F)
+    ctx.floor("E-TABLE.swap", "interpreted level_swap situations", nsw, 80)
     ctx.not_decided = ("exactness of counts over histories; the unsafe internals of the managers; "
                        "capacity restoration after gc")
